@@ -1,4 +1,5 @@
 import Spine.CmdNat
+import Spine.CmdThm
 /-!
 # C18, part 2 — the nine command shapes, for every registered function
 
@@ -32,6 +33,25 @@ theorem c18_roundtrip_cmd {α : Type} (a : Args α) :
 /-- non-vacuity: every shape is applicable to some function outside `tagFailing` -/
 example : ∀ sh ∈ Shape.all, ∃ f ∈ functions, applicable f sh = true ∧ tagBad f sh = false := by
   decide +kernel
+
+/-- EVERY CALL, not only the listed shapes: `ReadCmdType`, `ReplyCmdType` and `NotifyOrWriteCmdType` can be
+    called with each selectors / elements argument given or nil — 22 presence patterns (`Call`). Each builds
+    what one of the 15 shapes builds (`buildCall_eq_shape`; with `partialWithoutSelector` the other
+    arguments are ignored, `notifyOrWriteCmd_pws`), so for EVERY call and every choice of values the
+    command built, encoded and decoded is recognised as what the shape of the call demands. -/
+theorem c18_roundtrip_every_call {α : Type} (a : Args α) :
+    ∀ f ∈ functions, ∀ c : Call, applicable f c.shape = true → tagBad f c.shape = false →
+      roundtripCall clean f c a = .ok (some (expected f c.shape a)) := by
+  intro f hf c ha hb
+  rw [roundtripCall_eq_shape]
+  exact c18_roundtrip_cmd a f hf c.shape c.shape_mem_all ha hb
+
+/-- non-vacuity: all 22 calls are covered, 15 of them ignore no argument and reach 15 distinct shapes,
+    and a call with all three of delete selector, partial selector and delete elements is among them -/
+example : Call.all.length = 22 ∧ (Call.all.filter fun c => !c.ignoresArgs).length = 15 ∧
+    ((Call.all.filter fun c => !c.ignoresArgs).map Call.shape).eraseDups.length = 15 ∧
+    (∃ f ∈ functions, applicable f (Call.now true true false true).shape = true ∧
+      tagBad f (Call.now true true false true).shape = false) := by decide +kernel
 
 /-- PARTIAL (member as written): the same for the shapes that carry no delete filter. -/
 theorem c18_roundtrip_cmd_partial {α : Type} (a : Args α) :
